@@ -229,11 +229,22 @@ def plan(circ, k):
 
 
 def program(circs):
-    body = []
+    """One function per circuit, called from a run-time loop in main(): the calls sit in different
+    basic blocks, so the qubits of circuit k are freed before circuit k+1 allocates (inside one
+    dataflow block nothing orders the QFree of one circuit before the QAlloc of the next and the
+    emulator runs out of its n_qubits)."""
+    parts = [HEADER]
     for k, c in enumerate(circs):
         lines, _ = plan(c, k)
-        body.extend("    " + ln for ln in lines)
-    return HEADER + "\n\n@guppy\ndef main() -> None:\n" + "\n".join(body) + "\n"
+        parts.append(f"\n@guppy\ndef circ{k}() -> None:\n" + "\n".join("    " + ln for ln in lines) + "\n")
+    if len(circs) == 1:
+        parts.append("\n@guppy\ndef main() -> None:\n    circ0()\n")
+    else:
+        disp = []
+        for k in range(len(circs)):
+            disp.append(f"        {'if' if k == 0 else 'elif'} k == {k}:\n            circ{k}()")
+        parts.append(f"\n@guppy\ndef main() -> None:\n    for k in range({len(circs)}):\n" + "\n".join(disp) + "\n")
+    return "\n".join(parts)
 
 
 def circuit_source(circ):
@@ -433,16 +444,18 @@ def evaluate_batch(circs, seed):
     nq = max(c["n"] for c in circs)
     _trace(f"run {len(circs)} circuits, {len(src.splitlines())} lines")
     out = qrun.run_states(src, nq, seed=seed)
-    _trace(f"  -> {out.kind}")
+    _trace(f"  -> {out.kind} {out.message[:300] if out.kind != 'ok' else ''}")
     if out.kind == "unsupported":
         return [("__unsupported__", out.message[:300], {})] * len(circs)
     if out.kind in ("rejected", "crash", "invalid"):
-        if len(circs) > 1:  # find the circuit(s) responsible
-            return [evaluate_batch([c], seed)[0] for c in circs]
+        if len(circs) > 1:  # find the circuit(s) responsible by bisection
+            h = len(circs) // 2
+            return evaluate_batch(circs[:h], seed) + evaluate_batch(circs[h:], seed)
         return [("__harness__", f"generated program did not compile ({out.kind}): {out.message[-1200:]}\n{src}", {})]
     if out.kind == "panic":
         if len(circs) > 1:
-            return [evaluate_batch([c], seed)[0] for c in circs]
+            h = len(circs) // 2
+            return evaluate_batch(circs[:h], seed) + evaluate_batch(circs[h:], seed)
         return [("run.panic", f"emulation panicked: {out.message[:500]}", {})]
     results = {}
     for t, v in out.stream:
@@ -464,15 +477,38 @@ def run_one(circ, seed):
 
 
 def replay(case):
+    """Re-run one recorded circuit on its own: one build, the recorded emulator seed first and
+    three more (measurement outcomes are random; the oracle follows whatever is reported)."""
+    from vlib import qrun, runner
+
     circ = case["circ"]
-    kinds = []
-    for s in [case.get("seed", 1)] + [case.get("seed", 1) + i for i in (1, 2, 3)]:
-        kind, detail, _ = run_one(circ, s)
-        if kind and kind.startswith("__"):
-            raise harness.HarnessError(detail)
-        if kind:
-            return (case.get("bucket") or signature(kind, circ), f"seed {s}: {detail}\n--- circuit\n{circuit_source(circ)}")
-        kinds.append(kind)
+    msb = get_msb()
+    src = program([circ])
+    lm = runner.load_module(src)
+    try:
+        out, pkg = runner.compile_def(lm.mod.main)
+        if out.kind != "ok":
+            raise harness.HarnessError(f"replay program did not compile: {out.brief()}")
+        out, built = qrun.build_pkg(pkg, circ["n"])
+        if built is None:
+            raise harness.HarnessError(f"replay program did not build: {out.brief()}")
+        try:
+            s0 = int(case.get("seed", 1))
+            for sd in (s0, s0 + 1, s0 + 2, s0 + 3):
+                out = built.run(sd)
+                if out.kind == "panic":
+                    return (case.get("bucket") or "run.panic", f"seed {sd}: emulation panicked: {out.message[:500]}")
+                if out.kind != "ok":
+                    raise harness.HarnessError(f"replay run: {out.brief()}")
+                _, steps = plan(circ, 0)
+                r = judge(circ, steps, dict(out.stream), dict(out.extra["states"]), msb, {}, out.extra.get("rho"))
+                if r:
+                    return (case.get("bucket") or signature(r[0], circ),
+                            f"seed {sd}: {r[1]}\n--- circuit\n{circuit_source(circ)}")
+        finally:
+            built.dispose()
+    finally:
+        lm.dispose()
     return None
 
 
@@ -616,7 +652,7 @@ def strategies():
     @st.composite
     def circuit(draw):
         n = draw(st.sampled_from([1, 2, 2, 3, 3, 3, 4, 4, 4, 4]))
-        mode = draw(st.sampled_from(["unitary", "unitary", "unitary", "basis", "super", "super", "super"]))
+        mode = draw(st.sampled_from(["unitary", "unitary", "unitary", "basis", "basis", "super", "super", "super"]))
         ops = []
         live = list(range(n))
         # optional product-state prefix
@@ -839,7 +875,7 @@ SPEC = harness.Spec(
     shards={"quick": 16, "thorough": 16},
     budget_s={"quick": 90, "thorough": 840},
     params={"quick": {"n": 384}, "thorough": {"n": 6400}},
-    min_nontrivial=150,
+    min_nontrivial=100,
 )
 
 if __name__ == "__main__":
